@@ -89,11 +89,26 @@ Theorem C05_iterator_cache_history_free : forall h k d,
   d = it_dep (fst (krun _ _ _ _ Nat.eqb it_cstep it_survives it_dep it_ready it_init h)) k.
 Proof. exact iterator_cache_history_free. Qed.
 Print Assumptions C05_iterator_cache_history_free.
+(* Simulator._evolve, entries keyed (state, n): whatever the history, a cached evolution was computed for the current
+   circuit, heralds and mask usability (init_use_mask drops the cache when the usability flips, /repo 8766d55d) *)
 Theorem C05_simulator_evolve_cache_history_free : forall c0 h k d,
-  snd (kstep _ _ _ _ sn_eqb sim_cstep sim_survives sim_dep sim_ready (krun _ _ _ _ sn_eqb sim_cstep sim_survives sim_dep sim_ready c0 h) (KQuery k)) = Some d ->
-  d = sim_dep (fst (krun _ _ _ _ sn_eqb sim_cstep sim_survives sim_dep sim_ready c0 h)) k.
+  snd (kstep _ _ _ _ sn_eqb sim_cstep (sim_survives true) sim_dep sim_ready (krun _ _ _ _ sn_eqb sim_cstep (sim_survives true) sim_dep sim_ready c0 h) (KQuery k)) = Some d ->
+  d = sim_dep (fst (krun _ _ _ _ sn_eqb sim_cstep (sim_survives true) sim_dep sim_ready c0 h)) k.
 Proof. exact simulator_evolve_cache_history_free. Qed.
 Print Assumptions C05_simulator_evolve_cache_history_free.
+(* before 8766d55d: set_circuit; set_heralds; probs_svd (PNR: mask used) caches (|1,1>, 2); probs_svd (threshold: mask not
+   usable) finds the entry computed under the mask; with the invalidation it is recomputed *)
+Theorem C05_simulator_evolve_cache_refuted_old_code :
+  snd (kstep _ _ _ _ sn_eqb sim_cstep (sim_survives false) sim_dep sim_ready
+         (krun _ _ _ _ sn_eqb sim_cstep (sim_survives false) sim_dep sim_ready sim_init w_sim_flip) (KQuery ([1; 1]%nat, 2%nat)))
+    = Some (1%nat, 1%nat, true) /\
+  sim_dep (fst (krun _ _ _ _ sn_eqb sim_cstep (sim_survives false) sim_dep sim_ready sim_init w_sim_flip)) ([1; 1]%nat, 2%nat)
+    = (1%nat, 1%nat, false) /\
+  snd (kstep _ _ _ _ sn_eqb sim_cstep (sim_survives true) sim_dep sim_ready
+         (krun _ _ _ _ sn_eqb sim_cstep (sim_survives true) sim_dep sim_ready sim_init w_sim_flip) (KQuery ([1; 1]%nat, 2%nat)))
+    = Some (1%nat, 1%nat, false).
+Proof. exact simulator_evolve_cache_old_code. Qed.
+Print Assumptions C05_simulator_evolve_cache_refuted_old_code.
 (* Simulator.probs(BasicState): now computed without a mask whatever probs_svd left in the engine; before bc7ab4f9 under
    the leftover mask *)
 Theorem C05_simulator_probs_unmasked : forall h, snd (simm_step true (simm_run true h) SmProbs) = Some None.
